@@ -8,9 +8,10 @@ import props_cl, props_dq, props_obj
 FA = ["--fault", "3"]
 
 
-def faultw(w, name=None, kinds="3"):
+def faultw(w, name=None, kinds="3", succession=False):
     w = dict(w)
-    w["args"] = ["--fault", kinds]
+    # succession: an operation that failed with everything unchanged is retried at once, fails at the same point again, and a third attempt must succeed
+    w["args"] = ["--fault", kinds] + (["succession"] if succession else [])
     if name:
         w["name"] = name
     return w
@@ -18,6 +19,8 @@ def faultw(w, name=None, kinds="3"):
 
 ASSUME = ["fault points are: every global operator new and every copy/move construction, copy/move assignment and comparison of the harness's tracked user types; "
           "exceptions from Threading policy objects (mutex lock) are not injected",
+          "faults in succession are sampled by one pattern: an operation that failed leaving everything unchanged is retried at once, fails at the same point again, "
+          "and a third, undisturbed attempt must behave as if nothing had happened; sequences of different faulted operations are not enumerated",
           "after a failed copy ASSIGNMENT of a dispatcher/queue the destination is only destroyed, not observed (basic guarantee); a failed takeEvent may keep or discard the head event",
           "TLC and the CommunityModules JSON reader are correct; the interpreters record, they do not judge"]
 
@@ -39,7 +42,8 @@ def plans(tier, seed):
                             "constants": props_cl.consts(5 if quick else 6, 1, lists=1, ops={"a", "p", "i", "r"}, nest=set(), jump=())},
                            {"module": "CLImpl", "tag": "lists-fault-copy", "invariants": props_cl.INV, "last_ops": {"cc", "ca"},
                             "constants": props_cl.consts(6 if quick else 8, 1, lists=2, ops={"a", "cc", "ca"}, nest=set(), jump=())}],
-                "worlds": [faultw(props_cl.world("cl_single_fn", 0, 0), "cl_single_fn_fault"), faultw(props_cl.world("cl_multi_cb", 1, 1, fraction=0.3, fill="0xFF"), "cl_multi_cb_fault")],
+                "worlds": [faultw(props_cl.world("cl_single_fn", 0, 0), "cl_single_fn_fault"), faultw(props_cl.world("cl_multi_cb", 1, 1, fraction=0.3, fill="0xFF"), "cl_multi_cb_fault"),
+                           faultw(props_cl.world("cl_multi_cb", 1, 1, fraction=0.4), "cl_multi_cb_fault_succession", succession=True)],
                 "nontrivial_key": "faults_fired", "level": "fault_enumeration",
                 "rule": "every CLImpl script ending in append/prepend/insert/copy-construct/copy-assign is re-run with the k-th fault point armed, k = 1.. until no fault fires",
                 "assumptions": ASSUME})
@@ -64,7 +68,9 @@ def plans(tier, seed):
                             "constants": props_dq.consts(events=(1, 2), nodes=1, filters=0, enq=3, disp=0, depth=3, ordered=True, ops={"al", "nq", "po", "tk"}, nest=set())}],
                 "worlds": [faultw(props_dq.world("f_val_filter", filt=1, arg=0, only_tags=["dq-fault"]), "f_val_filter_fault"),
                            faultw(props_dq.world("f_val_ordered_byarg", order=3, arg=0, only_tags=["dq-fault-ordered-nq"]), "f_val_ordered_fault"),
-                           faultw(props_dq.world("f_cref_str_multi", key=1, arg=1, threading=1, filt=1, fraction=0.3, fill="0xFF", only_tags=["dq-fault"]), "f_cref_str_fault")],
+                           faultw(props_dq.world("f_cref_str_multi", key=1, arg=1, threading=1, filt=1, fraction=0.3, fill="0xFF", only_tags=["dq-fault"]), "f_cref_str_fault"),
+                           faultw(props_dq.world("f_val_filter", filt=1, arg=0, fraction=0.5, only_tags=["dq-fault"]), "f_val_filter_fault_succession", succession=True),
+                           faultw(props_dq.world("f_val_ordered_byarg", order=3, arg=0, fraction=0.5, only_tags=["dq-fault-ordered-nq"]), "f_val_ordered_fault_succession", succession=True)],
                 "nontrivial_key": "faults_fired", "level": "fault_enumeration",
                 "rule": "every DQImpl script ending in a listener/filter addition, enqueue, peek, take, dispatch or processing call is re-run with the k-th fault point armed",
                 "assumptions": ASSUME})
@@ -72,7 +78,8 @@ def plans(tier, seed):
     out.append({"interp": "harness/dq_interp.cpp", "trace_module": "TraceDQ",
                 "models": [{"module": "RemGen", "tag": "rem-fault", "invariants": props_dq.RINV, "last_ops": {"sa", "sp", "ac", "ak"},
                             "constants": props_dq.rconsts(nodes=3 if not quick else 2, removers=2, disp=0, counts=(1,), ops={"al", "sa", "sp", "sx", "sd", "sn", "ac", "ak"}, nest=set())}],
-                "worlds": [faultw(props_dq.world("r_disp", obj=0), "r_disp_fault"), faultw(props_dq.world("r_queue_multi_str", obj=1, threading=1, key=1, arg=1, fraction=0.5, fill="0xFF"), "r_queue_fault")],
+                "worlds": [faultw(props_dq.world("r_disp", obj=0), "r_disp_fault"), faultw(props_dq.world("r_queue_multi_str", obj=1, threading=1, key=1, arg=1, fraction=0.5, fill="0xFF"), "r_queue_fault"),
+                           faultw(props_dq.world("r_disp", obj=0, fraction=0.5), "r_disp_fault_succession", succession=True)],
                 "nontrivial_key": "faults_fired", "level": "fault_enumeration",
                 "rule": "every RemGen script ending in an addition through ScopedRemover / CounterRemover / ConditionalRemover is re-run with the k-th fault point armed",
                 "assumptions": ASSUME})
